@@ -169,6 +169,15 @@ def run(c, case):
             v = a._getitem((slice(None), 1))
             v._setitem((1,), -9)
         return {'a': arr_list(a)}
+    if f == 'np_bool_arith':
+        m = np.asarray(case['mask'], dtype=np.BOOL)
+        ints = np.asarray(list(range(len(case['mask']))))
+        return {'sub': arr_list(case['n'] - m), 'add': arr_list(m + ints), 'mul': arr_list(ints * m), 'app': arr_list(np.np_append(ints, ints.fn((0,))))}
+    if f == 'np_linspace':
+        return {'r': arr_list(np.linspace(case['a'], case['b'], case['n']))}
+    if f == 'np_unique_small':
+        u, first, inv, cnt = np.np_unique(np.asarray(case['vals']), return_index=True, return_inverse=True, return_counts=True)
+        return {'u': arr_list(u), 'first': arr_list(first), 'inv': arr_list(inv), 'cnt': arr_list(cnt)}
     if f == 'np_slice_store':
         a = np.asarray([[10, 11], [20, 21], [30, 31], [40, 41]])
         v = case['val']
